@@ -5,10 +5,12 @@
    AddRef()s or DecRef()s a released object, never gives back a reference it
    does not hold, never overwrites a root and ends with no reference left in a
    local (x_revert_never_faults, x_revert_never_faults_after_any_history).
-   For the operations of Owners.v, for XPrev and for XOpenColl this is checked
-   on bounded explorations only (they would need a kind discipline of the heap
-   - footers hold mappings, mappings hold files - that the ownership invariant
-   does not carry); the revert needs ranks only, and is proved. *)
+   The revert needs ranks only.  The other operations (those of Owners.v,
+   XPrev, XOpenColl) need a kind discipline of the heap - footers hold
+   mappings, mappings hold files - that the ownership invariant does not
+   carry: PROGRESS of the whole alphabet is proved with that strengthened
+   invariant in OwnersProgressRules.v / OwnersProgressFacts.v /
+   OwnersRevertProgressFacts.v (C15_legal_use_never_faults). *)
 From Coq Require Import List Arith Bool Lia.
 From Moss Require Import Owners OwnersFacts OwnersRevert OwnersRevertFacts.
 Import ListNotations.
